@@ -241,30 +241,3 @@ func ovStr(spec *EncSpec, v interface{}) string {
 	return valStr(spec, v)
 }
 
-// QueryLine runs the four lookups on one query.
-func QueryLine(st *trie.SlimTrie, spec *EncSpec, q string, hasLeaves bool) string {
-	g, _ := protect(func() string { return fmt.Sprint(st.GetID(q)) })
-	gv, _ := protect(func() string { v, f := st.Get(q); return foundStr(spec, v, f) })
-	rv, _ := protect(func() string { v, f := st.RangeGet(q); return foundStr(spec, v, f) })
-	sv, _ := protect(func() string {
-		l, e, r := st.Search(q)
-		return fmt.Sprintf("%s %s %s", ovStr(spec, l), ovStr(spec, e), ovStr(spec, r))
-	})
-	return fmt.Sprintf("q %s G %s %s R %s S %s", hxs(q), g, gv, rv, sv)
-}
-
-// RunImpl writes the implementation's observables for the case.
-func (c *TrieCase) RunImpl(w *bufio.Writer) *Built {
-	fmt.Fprintf(w, "C %s\n", c.ID)
-	b := c.Build()
-	if b.Err != nil {
-		fmt.Fprintf(w, "B %s\n", buildErrStr(b.Err, c.Keys))
-		return b
-	}
-	fmt.Fprintf(w, "B ok\n")
-	DumpView(w, b.St)
-	for _, q := range c.Queries {
-		fmt.Fprintf(w, "%s\n", QueryLine(b.St, b.Spec, q, true))
-	}
-	return b
-}
